@@ -85,6 +85,34 @@ func runC07(c *Ctx, w *World, r *Report) {
 		if fname == "pbcmpl.Unmarshal" && nsrc == 0 {
 			r.Bad("R-TAINT", fname+"|sources", w.Pos(fn.Pos()), "no use of the header's size fields found: the size source anchor is missing")
 		}
+		// io.CopyN / io.LimitReader with a header-derived count: a NEGATIVE count silently copies nothing
+		// and reports success, so the count must be proven >= 0 on the calling edge (no upper bound needed)
+		eachInstr(fn, func(ins ssa.Instruction) {
+			call, ok := ins.(*ssa.Call)
+			if !ok {
+				return
+			}
+			name := calleeName(call.Common())
+			var cnt ssa.Value
+			switch name {
+			case "io.CopyN":
+				cnt = call.Common().Args[2]
+			case "io.LimitReader":
+				cnt = call.Common().Args[1]
+			default:
+				return
+			}
+			if !tainted[cnt] && !tainted[stripConv(cnt)] {
+				return
+			}
+			key := fname + "|" + name + ".count<-header"
+			bd := fa.BoundsAt(call.Block(), fa.Lin(cnt))
+			if bd.HasLo && bd.Lo >= 0 {
+				r.OK("R-TAINT", key, w.InstrPos(call), "header-derived count of "+name+" is proven >= 0: "+bd.String())
+			} else {
+				r.Bad("R-TAINT", key, w.InstrPos(call), "a size read from the input header is passed to "+name+" without being proven >= 0 (known bounds "+bd.String()+"): for a negative count it copies nothing and returns nil, so a corrupt header (body size >= 2^63) is reported as a successfully read frame")
+			}
+		})
 		if len(sinks) == 0 {
 			r.OK("R-TAINT", fname, w.Pos(fn.Pos()), fmt.Sprintf("%d size values read from the input header, %d derived values, none reaches an allocation size, slice bound or index", nsrc, len(tainted)))
 		}
@@ -292,6 +320,83 @@ func runC07(c *Ctx, w *World, r *Report) {
 			}
 			r.Check(bad == "", "R-GATE", fname+"|decode", w.InstrPos(decode), bad, "proto.Unmarshal(body, msg) dominated by err==nil of header and body reads")
 		}
+		reportSuccessViaDecode(w, r, fn)
+		// EOF kind: a body read that can report io.EOF after body bytes were consumed must convert it
+		r.Rule("R-EOFKIND", "a body read whose error can be io.EOF although bytes of the frame were already consumed by it or by an earlier body read (io.CopyN/io.Copy/Read, or any read inside a loop) returns that error unconverted only on an edge where err == io.EOF is false or no body byte was read; io.ReadFull called once converts by itself")
+		for i, bc := range bodyCalls {
+			inLoop := fa.Reaches(bc.Call.Block(), bc.Call.Block()) && func() bool {
+				for _, s := range bc.Call.Block().Succs {
+					if fa.Reaches(s, bc.Call.Block()) {
+						return true
+					}
+				}
+				return false
+			}()
+			needs := inLoop || bc.Name == "io.CopyN" || bc.Name == "io.Copy" || strings.HasPrefix(bc.Name, "invoke ")
+			for j, other := range bodyCalls {
+				if j != i && instrDominates(other.Call, bc.Call) {
+					needs = true
+				}
+			}
+			key := fmt.Sprintf("%s|body-read#%d", fname, i+1)
+			if !needs {
+				r.OK("R-EOFKIND", key, w.InstrPos(bc.Call), "single io.ReadFull: EOF only when nothing was read, ErrUnexpectedEOF otherwise (library contract)")
+				continue
+			}
+			var e ssa.Value
+			for _, es := range errorCalls(fn) {
+				if es.Call == ssa.CallInstruction(bc.Call) {
+					e = es.Err
+				}
+			}
+			badK := ""
+			if e == nil {
+				badK = "error not extracted"
+			}
+			for _, ret := range returnsOf(fn) {
+				if e == nil || !instrDominates(bc.Call, ret) && !fa.Reaches(bc.Call.Block(), ret.Block()) {
+					continue
+				}
+				for _, leaf := range fa.leavesOf(ret.Results[2], ret.Block(), 0) {
+					if unwrapErr(leaf.V) != e {
+						continue
+					}
+					if nilnessUnder(leaf.Conds, e) != 1 {
+						continue
+					}
+					// need: (e == io.EOF) false, or count == 0 / <= 0
+					okK := false
+					for _, cd := range leaf.Conds {
+						if bo, ok := cd.V.(*ssa.BinOp); ok && (bo.Op == token.EQL || bo.Op == token.NEQ) {
+							var other ssa.Value
+							if bo.X == e {
+								other = bo.Y
+							} else if bo.Y == e {
+								other = bo.X
+							}
+							if other != nil {
+								if g, ok := isGlobalErrVarLoad(other); ok && g == "io.EOF" {
+									isEOF := (bo.Op == token.EQL) == cd.Pol
+									if !isEOF {
+										okK = true
+									}
+								}
+							}
+						}
+					}
+					if bc.Count != nil {
+						bd := fa.boundsFrom(leaf.Conds, fa.Lin(bc.Count))
+						if bd.HasHi && bd.Hi <= 0 && !inLoop {
+							okK = true
+						}
+					}
+					if !okK {
+						badK = fmt.Sprintf("the error of %s is returned unconverted at %s although it can be io.EOF after part of the frame was consumed: a truncated frame would look like a clean end of stream", bc.Name, w.InstrPos(ret))
+					}
+				}
+			}
+			r.Check(badK == "", "R-EOFKIND", key, w.InstrPos(bc.Call), badK, "io.EOF after partial progress is converted to io.ErrUnexpectedEOF before being returned")
+		}
 		// version returned is the header's
 		for i, ret := range returnsOf(fn) {
 			v := ret.Results[1]
@@ -356,4 +461,39 @@ func init() {
 		Quick:   []Config{cfgDefault}, Thorough: []Config{cfgDefault, cfg386},
 		Run: runC07,
 	})
+}
+
+// reportSuccessViaDecode: Unmarshal reports success only through the decode of the body.
+func reportSuccessViaDecode(w *World, r *Report, fn *ssa.Function) {
+	fa := w.FA(fn)
+	fname := "pbcmpl.Unmarshal"
+	r.Rule("R-SUCCESS", "Unmarshal reports success only through the decode of the body: every return whose error can be nil is dominated by proto.Unmarshal(body, msg) and lies on its err == nil edge or returns its error (an early `return n, ver, nil`, e.g. for an empty body, would leave msg undecoded / not reset)")
+	var decode *ssa.Call
+	eachInstr(fn, func(ins ssa.Instruction) {
+		if call, ok := ins.(*ssa.Call); ok && strings.HasSuffix(calleeName(call.Common()), "proto.Unmarshal") {
+			decode = call
+		}
+	})
+	badS := ""
+	var decErr ssa.Value
+	for _, es := range errorCalls(fn) {
+		if decode != nil && es.Call == ssa.CallInstruction(decode) {
+			decErr = es.Err
+		}
+	}
+	for _, ret := range returnsOf(fn) {
+		for _, leaf := range fa.leavesOf(ret.Results[2], ret.Block(), 0) {
+			cst, ok := unwrapErr(leaf.V).(*ssa.Const)
+			if !ok || !cst.IsNil() {
+				continue
+			}
+			if decode == nil || !instrDominates(decode, ret) || decErr == nil || nilnessUnder(leaf.Conds, decErr) != -1 {
+				badS = fmt.Sprintf("success (nil error) is returned at %s on a path that does not go through a successful decode of the body", w.InstrPos(ret))
+			}
+		}
+	}
+	if decode == nil {
+		badS = "the body is never decoded into msg"
+	}
+	r.Check(badS == "", "R-SUCCESS", fname, w.Pos(fn.Pos()), badS, "the only nil-able error returned is the decode's own")
 }
